@@ -150,6 +150,5 @@ theorem mayView_mono (hle : ContactLe cx cx' u u') (hu : u ≠ "") (t : Table) (
     · exact ⟨viewObject_mono hle _ _ hv.1, viewHostGroup_mono hle _ hv.2⟩
     · exact viewObject_mono hle _ _ hv
     · exact viewObject_mono hle _ _ hv
-    · trivial
 
 end Lmd.AuthWhole
